@@ -528,6 +528,7 @@ fn run_cold_open(sc: &Scenario, seed: u64, run_no: u64) -> SchedOutcome {
     const ROUNDS: usize = 30;
     let u = Arc::new(Universe::plain(16));
     let sink = TraceSink::new(Arc::clone(&u));
+    watch_sink(&sink);
     let fs = SimFs::new(ROOT);
     let ctl = Ctl::new();
     let install = |sink: &Arc<TraceSink>, ctl: &Arc<Ctl>| {
@@ -712,6 +713,7 @@ fn run_manual_rotate(sc: &Scenario, seed: u64, run_no: u64) -> SchedOutcome {
     const BG: &str = "bg";
     let u = Arc::new(Universe::plain(6));
     let sink = TraceSink::new(Arc::clone(&u));
+    watch_sink(&sink);
     let fs = SimFs::new(ROOT);
     let ctl = Ctl::new();
     raindb::verif::install(
@@ -958,6 +960,7 @@ fn emit_quiet(env: &Arc<Env>, db: &Arc<DB>, fs: &SimFs, sink: &Arc<TraceSink>) {
 pub fn run_tlc_schedule(schedule: &[String], tag: &str, seed: u64, run_no: u64) -> SchedOutcome {
     let u = Arc::new(Universe::plain(6));
     let sink = TraceSink::new(Arc::clone(&u));
+    watch_sink(&sink);
     let fs = SimFs::new(ROOT);
     let ctl = Ctl::new();
     raindb::verif::install(
@@ -1164,6 +1167,7 @@ pub fn run_scenario(sc: &Scenario, seed: u64, run_no: u64) -> SchedOutcome {
     }
     let u = Arc::new(Universe::plain(6));
     let sink = TraceSink::new(Arc::clone(&u));
+    watch_sink(&sink);
     let fs = SimFs::new(ROOT);
     let ctl = Ctl::new();
     raindb::verif::install(
@@ -1496,6 +1500,89 @@ pub fn run_scenario(sc: &Scenario, seed: u64, run_no: u64) -> SchedOutcome {
     }
 }
 
+// ---------------------------------------------------------------------------------------------
+// process watchdog: the scripts of the scenarios call the database from the driver's main thread
+// (compact_range, forced flush, writes); if raindb never returns from such a call - e.g. because
+// its background thread is dead - nothing else would notice.  When the event sink has not grown
+// for STALL the process writes what it has (plus a Hang event) and leaves with code 3.
+// ---------------------------------------------------------------------------------------------
+
+pub struct WatchCtx {
+    pub trace_path: std::path::PathBuf,
+    pub results_path: std::path::PathBuf,
+    pub lines: Vec<serde_json::Value>,
+    pub results: Vec<serde_json::Value>,
+    pub current: serde_json::Value,
+}
+
+static WATCH_SINK: Mutex<Option<Arc<TraceSink>>> = Mutex::new(None);
+static WATCH_CTX: Mutex<Option<WatchCtx>> = Mutex::new(None);
+const STALL: Duration = Duration::from_secs(150);
+
+fn watch_sink(s: &Arc<TraceSink>) {
+    *WATCH_SINK.lock() = Some(Arc::clone(s));
+}
+
+fn watch_update(f: impl FnOnce(&mut WatchCtx)) {
+    if let Some(c) = WATCH_CTX.lock().as_mut() {
+        f(c);
+    }
+}
+
+fn start_process_watchdog(trace_path: std::path::PathBuf, results_path: std::path::PathBuf) {
+    *WATCH_CTX.lock() = Some(WatchCtx {
+        trace_path,
+        results_path,
+        lines: vec![],
+        results: vec![],
+        current: json!(null),
+    });
+    std::thread::Builder::new()
+        .name("watchdog".into())
+        .spawn(|| {
+            let mut last_len = usize::MAX;
+            let mut last_ptr = 0usize;
+            let mut since = Instant::now();
+            loop {
+                std::thread::sleep(Duration::from_millis(500));
+                let cur = WATCH_SINK.lock().clone();
+                let (len, ptr) = match &cur {
+                    Some(s) => (s.len(), Arc::as_ptr(s) as usize),
+                    None => (0, 0),
+                };
+                if len != last_len || ptr != last_ptr {
+                    last_len = len;
+                    last_ptr = ptr;
+                    since = Instant::now();
+                    continue;
+                }
+                if since.elapsed() < STALL {
+                    continue;
+                }
+                // stalled: dump and leave
+                if let (Some(s), Some(c)) = (cur, WATCH_CTX.lock().as_mut()) {
+                    s.emit_json("Hang", json!({"what": "the driver's own call into raindb does not return"}));
+                    let mut lines = c.lines.clone();
+                    lines.extend(s.snapshot());
+                    lines.push(json!({"e": "End", "i": 0, "t": "main"}));
+                    let _ = crate::trace::write_ndjson(&c.trace_path, &lines);
+                    let mut res = c.results.clone();
+                    if !c.current.is_null() {
+                        let mut cur = c.current.clone();
+                        cur["status"] = json!("hang");
+                        res.push(cur);
+                    }
+                    let _ = std::fs::write(
+                        &c.results_path,
+                        serde_json::to_string_pretty(&json!({"runs": res, "aborted": true})).unwrap(),
+                    );
+                }
+                std::process::exit(3);
+            }
+        })
+        .unwrap();
+}
+
 pub fn cmd(m: &HashMap<String, String>) -> i32 {
     let out = std::path::PathBuf::from(m.get("out").cloned().unwrap_or_else(|| "out/sched".into()));
     std::fs::create_dir_all(&out).unwrap();
@@ -1521,6 +1608,20 @@ pub fn cmd(m: &HashMap<String, String>) -> i32 {
             }
             let schedule: Vec<String> = serde_json::from_str(line).expect("schedule line");
             let tag = format!("tlc#{}", idx);
+            if WATCH_CTX.lock().is_none() {
+                start_process_watchdog(out.join("trace_0000.ndjson"), out.join("results.json"));
+            }
+            {
+                let (l2, r2) = (lines.clone(), results.clone());
+                let cur = json!({"seed": seed0, "tag": tag, "status": "running", "parked": false,
+                    "events": 0, "replay": "", "trace": out.join("trace_0000.ndjson").to_string_lossy(),
+                    "panics": Vec::<String>::new()});
+                watch_update(move |c| {
+                    c.lines = l2;
+                    c.results = r2;
+                    c.current = cur;
+                });
+            }
             let o = run_tlc_schedule(&schedule, &tag, seed0, idx as u64 + 1);
             let rpath = out.join(format!("replay_{}_{}.json", seed0, idx));
             std::fs::write(
@@ -1576,7 +1677,6 @@ pub fn cmd(m: &HashMap<String, String>) -> i32 {
                 }
             }
             run_no += 1;
-            let o = run_scenario(&sc, seed, run_no);
             let rpath = out.join(format!("replay_{}_{}.json", seed, run_no));
             std::fs::write(
                 &rpath,
@@ -1584,6 +1684,23 @@ pub fn cmd(m: &HashMap<String, String>) -> i32 {
                     .unwrap(),
             )
             .unwrap();
+            if WATCH_CTX.lock().is_none() {
+                start_process_watchdog(out.join("trace_0000.ndjson"), out.join("results.json"));
+            }
+            {
+                let (l2, r2) = (lines.clone(), results.clone());
+                let tp = out.join(format!("trace_{:04}.ndjson", chunk));
+                let cur = json!({"seed": seed, "tag": sc.name, "status": "running", "parked": false,
+                    "events": 0, "replay": rpath.to_string_lossy(), "trace": tp.to_string_lossy(),
+                    "panics": Vec::<String>::new()});
+                watch_update(move |c| {
+                    c.trace_path = tp;
+                    c.lines = l2;
+                    c.results = r2;
+                    c.current = cur;
+                });
+            }
+            let o = run_scenario(&sc, seed, run_no);
             results.push(json!({"seed": seed, "tag": sc.name, "status": o.status, "parked": o.parked,
                 "events": o.lines.len(), "replay": rpath.to_string_lossy(),
                 "trace": out.join(format!("trace_{:04}.ndjson", chunk)).to_string_lossy(),
@@ -1624,6 +1741,7 @@ pub fn cmd(m: &HashMap<String, String>) -> i32 {
 pub fn run_live(seed: u64, run_no: u64, nwriters: usize, nreaders: usize, ops: usize) -> SchedOutcome {
     let u = Arc::new(Universe::plain(8));
     let sink = TraceSink::new(Arc::clone(&u));
+    watch_sink(&sink);
     let fs = SimFs::new(ROOT);
     raindb::verif::install(
         ROOT,
